@@ -163,6 +163,8 @@ def _run(ctx, replay):
         rep['proof_log'] = sl.first_errors(blog)
         mt = sl.names_in(PROPS, ['mtSafe'])['mtSafe']
         explain = sl.explain_footprint(meta, set(mt) | {'setlocale'})
+        for n_ in meta.get('escapes_bad', []):
+            rep['problems'].append('handed_out_objects_fresh: %s hands out (or writes) memory that is not its caller\'s alone: %s' % (n_, meta['escapes'][n_]))
     uses_setlocale = ev.get(evals[0], 'unknown')
 
     exe = sl.link_harness(ctx, objs, fl, 'c17_threads.c', 'c17_threads', libs=('-lm', '-lpthread'), meta=meta)
@@ -252,11 +254,51 @@ def _run(ctx, replay):
             if not samples: samples.append(dict(script_line=lines[0], result=[l for l in r.stdout.splitlines() if l.startswith('T ')][0][:160]))
         stats['shared_array_reads'] += sum(1 for l in lines if ' $' in l or ' Shared' in l)
 
+    def errshare_round(nt, epochs, sd, label):
+        """round ErrorShare (harness: `c17_threads errshare`): errors (and crystal copies) made by ONE thread through the public API, their copies handed to
+        the other threads through a barrier, then every thread copies / propagates / clears / frees its own objects concurrently.  TSan must be silent,
+        every copy must carry the recorded code and text, and the output must equal the serial one."""
+        if sum(1 for v in viol if v['kind'] == 'crash') >= 2: return
+        e = dict(env, LC_ALL='C')
+        r = runh([exe, 'errshare', str(nt), str(epochs), str(sd)], e, tmo=180)
+        s = runh([exe, 'errshare', str(nt), str(epochs), str(sd), 'serial'], e, tmo=180)
+        stats['errshare_rounds'] = stats.get('errshare_rounds', 0) + 1
+        lines = ['#mode errshare %d %d' % (nt, epochs)]
+        reps = tsan_reports(r.stderr) + tsan_reports(s.stderr)
+        if s.returncode != 0 or not re.search(r'^E 0 copies [1-9]', s.stdout, flags=re.M):
+            rep['tie_broken'].append('%s: serial reference run of the ErrorShare round failed (exit %d): %s' % (label, s.returncode, (s.stdout + s.stderr)[-300:])); return
+        if r.returncode not in (0, 66):
+            stats['tsan_reports'] += len(reps)
+            viol.append(dict(kind='crash', what='ErrorShare round: threads copying / freeing their OWN error objects (copies of one original, handed over through a barrier) %s (exit %d) while the serial run is fine: %s' % (
+                'hung' if r.returncode == -9 else 'crashed', r.returncode, (reps[0].split('\n')[0] if reps else r.stderr[-300:])),
+                report=(reps[0][:2500] if reps else r.stderr[-2500:]), classes=classes_of(reps), lines=lines, seed=sd, label=label, kissel=False)); return
+        cop = sum(int(x) for x in re.findall(r'^E \d+ copies (\d+)', r.stdout, flags=re.M))
+        stats['errshare_copies'] = stats.get('errshare_copies', 0) + cop
+        if reps:
+            stats['tsan_reports'] += len(reps)
+            cl = classes_of(reps); first = {}
+            for x in reps: first.setdefault(report_class(x), x)
+            viol.append(dict(kind='race', what='ErrorShare round: ThreadSanitizer: %d report(s) in %d class(es) while every thread handled only its own error objects / crystal copies: %s' % (
+                len(reps), len(cl), '; '.join('%s (x%d)' % kv for kv in sorted(cl.items()))[:900]),
+                report='\n'.join(v_[:1800] for v_ in list(first.values())[:4]), classes=cl, lines=lines, seed=sd, label=label, kissel=False))
+        bad = [l for l in r.stdout.splitlines() if re.match(r'E \d+ copies \d+ mismatches [1-9]', l)]
+        if bad:
+            stats['serial_mismatches'] += len(bad)
+            viol.append(dict(kind='error-copy', what='ErrorShare round: a copy of an error (or crystal) did not carry the code / text of its original: %s' % bad[0][:400], lines=lines, seed=sd, label=label, kissel=False))
+        elif r.stdout != s.stdout:
+            stats['serial_mismatches'] += 1
+            viol.append(dict(kind='serial', what='ErrorShare round: concurrent output differs from the serial one: %r vs %r' % (r.stdout[:200], s.stdout[:200]), lines=lines, seed=sd, label=label, kissel=False))
+
     if replay:
         txt = open(replay).read()
         m = re.search(r'^#seed (\d+)', txt, flags=re.M); sd = int(m.group(1)) if m else 0
+        m = re.search(r'^#mode errshare (\d+) (\d+)', txt, flags=re.M)
+        if m:
+            for k in range(3):
+                errshare_round(int(m.group(1)), int(m.group(2)), sd + k, 'replay')
+                if viol: break
         lines = [l for l in txt.splitlines() if l and not l.startswith('#')]
-        if re.search(r'^#mode locale', txt, flags=re.M): lines = []
+        if re.search(r'^#mode (locale|errshare)', txt, flags=re.M): lines = []
         rexe = exeR if (exeR is not None and re.search(r'^#config kissel', txt, flags=re.M)) else exe
         for k in range(5):
             if lines: one_round(lines, sd + k, 'replay', exe=rexe)
@@ -267,6 +309,10 @@ def _run(ctx, replay):
         for fn in sorted(os.listdir(cdir)) if os.path.isdir(cdir) else []:
             if fn.startswith(ID + '-') and fn.endswith('.lines'):
                 txt = open(os.path.join(cdir, fn)).read()
+                m = re.search(r'^#mode errshare (\d+) (\d+)', txt, flags=re.M)
+                if m:
+                    m2 = re.search(r'^#seed (\d+)', txt, flags=re.M)
+                    errshare_round(int(m.group(1)), int(m.group(2)), int(m2.group(1)) if m2 else 1, 'corpus ' + fn); continue
                 one_round([l for l in txt.splitlines() if l and not l.startswith('#')], 1, 'corpus ' + fn)
         for i, (nt, nops) in enumerate(plan):
             one_round(make_script(ctx.rng, meta, nt, nops, files=good_files + ['xv_bad.dat']), ctx.rng.getrandbits(31), 'round %d (%d threads)' % (i, nt))
@@ -274,6 +320,9 @@ def _run(ctx, replay):
         for i, (nt, nops) in enumerate([(16, 250), (8, 400)] if ctx.tier == 'quick' else [(16, 500), (8, 800), (12, 600)] * 6):
             one_round(make_script(ctx.rng, meta, nt, nops, mode='shared'), ctx.rng.getrandbits(31), 'shared-array round %d (%d threads reading one user Crystal_Array)' % (i, nt))
             stats['shared_array_rounds'] += 1
+        # round ErrorShare: an error and its copies in DIFFERENT threads (made by one thread, handed over through a barrier, then handled concurrently)
+        for i, (nt, ep) in enumerate([(8, 6), (16, 4)] if ctx.tier == 'quick' else [(8, 20), (16, 12), (4, 40), (12, 16)] * 3):
+            errshare_round(nt, ep, ctx.rng.getrandbits(31), 'ErrorShare round %d (%d threads, %d epochs)' % (i, nt, ep))
         # the regenerated Kissel configuration: the Kissel / cascade family on its success path, concurrently
         if exeR is not None:
             from props import c16 as C16
@@ -374,6 +423,10 @@ def _run(ctx, replay):
         if v.get('classes'): body += ''.join('# report class (x%d): %s\n' % (n_, c_) for c_, n_ in sorted(v['classes'].items()))
         for v2 in viol[1:4]: body += '# also: %s (%s)\n' % (v2['what'][:400], v2.get('label', ''))
         if v['kind'] in ('locale', 'locale-other'): body += '#mode locale\n# replay: c17_threads locale 16 150 Ca5(PO4)3F  (LC_NUMERIC=C.utf8 held by one application thread)\n'
+        elif v.get('lines') and v['lines'][0].startswith('#mode errshare'):
+            body += '# replay: c17_threads errshare <threads> <epochs> <seed>  (per epoch: the main thread makes 10 error objects through the public API — failing calls of 7 families, 3 constructors — and 3 crystal\n' \
+                    '# copies, makes one xrl_error_copy / Crystal_MakeCopy per thread (odd indices: copies of copies), hands them over through a pthread barrier; then every thread\n' \
+                    '# does 60 rounds of copy / compare / propagate / matches / clear / free on ITS objects; see harness/c17_threads.c)\n#seed %d\n%s\n' % (v['seed'], v['lines'][0])
         else: body += ('#config kissel   (tables of the regenerated Kissel configuration: tools/regen_kissel.py)\n' if v.get('kissel') else '') + '#seed %d\n' % v['seed'] + '\n'.join(v['lines']) + '\n'
         for x in explain[:20]: body += '# footprint: entry %s reaches %s (%s): writes %s, external calls outside the MT-Safe list %s\n' % (x['entry'], x['function'], x['file'], x['writes'], x['exts'])
         if broken: body += '# broken obligations: %s\n' % json.dumps(dict(proof=rep['proof_broken'], tie=rep['tie_broken'], other=rep['problems']))[:3000]
@@ -402,6 +455,9 @@ def _run(ctx, replay):
                     'summed over the two data configurations (tables as shipped: the Kissel/cascade family can only fail; kissel_pe.dat regenerated from data/kissel: thread_stats.kissel.succeeded_per_function).  '
                     'In every round all threads also read ONE user Crystal_Array built by the main thread (lookups, lists, numeric functions on the entries themselves, uncopied), and there are rounds of only that; '
                     'the array must be bit-identical afterwards.  Canary: two threads inserting into the built-in array without a lock must produce a TSan report, else the check fails (detector not live).  '
+                    'Round ErrorShare (thread_stats.errshare_rounds / errshare_copies): one thread obtains error objects through the public API (failing calls of seven families, three constructors) and crystal copies, '
+                    'makes one xrl_error_copy / Crystal_MakeCopy per thread (and copies of copies), hands them over through a pthread barrier, then ALL threads copy / compare / propagate / match / clear / free '
+                    'their own objects concurrently: TSan silent, every copy carries the code and text recorded at creation, output equal to the serial run.  '
                     'Separately: the setlocale search (16 parser threads vs one application thread holding LC_NUMERIC=C.utf8), every one of whose reports is classified',
                samples=samples + [dict(finding=f['what'], key=k[0]) for f, k in rep['known']] + [dict(violation=v['what']) for v in viol[:2]],
                thread_stats=stats, lean_verdicts=ev, public_functions_exercised=len(ex),
